@@ -11,6 +11,7 @@ func TestMain(m *testing.M) { harn.Main(m) }
 func init() {
 	harn.Register("C18_Seq", RunSeq)
 	harn.Register("C18_Conc", RunConc)
+	harn.Register("C18_Race", RunRace)
 }
 
 func TestReplay(t *testing.T)  { harn.Replay(t) }
@@ -18,3 +19,4 @@ func TestRegress(t *testing.T) { harn.Regress(t) }
 
 func TestC18_Seq(t *testing.T)  { harn.Check(t, "C18_Seq", GenSeq, RunSeq) }
 func TestC18_Conc(t *testing.T) { harn.Check(t, "C18_Conc", GenConc, RunConc) }
+func TestC18_Race(t *testing.T) { harn.Check(t, "C18_Race", GenRace, RunRace) }
